@@ -333,6 +333,40 @@ fn exec_c17(sc: &C17Scenario) -> Outcome {
     }
     // the positive phase's last two calls removed the checkpoint and (not --all) nothing else; re-create some state
     let _ = w.cli(&["checkpoint", "update"]);
+    // ---- a file replaced between two reads of one invocation (one scenario in three): the generated file starts
+    // out tampered (a target renamed) and another process puts the original bytes back when it is opened for the
+    // k-th time. Rejecting is right; accepting is right if what is shown is the untouched configuration (k = 1: the
+    // original was back before anything was read); showing the tampered name with exit 0 means the bytes that were
+    // used are not the bytes that were verified.
+    if sc.rand_seed % 3 == 0 && sc.only.is_empty() {
+        if let Some(pos) = orig[1].windows(5).position(|x| x == b"t0000") {
+            let mut tampered = orig[1].clone();
+            tampered[pos + 4] = b'Z';
+            let alt = w.root.join(".ctl/generated.orig");
+            for k in 1..=3 {
+                if std::fs::write(&alt, &orig[1]).is_err() || std::fs::write(&paths[1], &tampered).is_err() {
+                    break;
+                }
+                let saved = w.knobs.clone();
+                w.knobs.push(("LD_PRELOAD".into(), crate::world::shim_path().to_string_lossy().into_owned()));
+                w.knobs.push(("FSFAULT_SWAP".into(), format!("{}|{}|{}", k, paths[1].display(), alt.display())));
+                let o = w.cli(&["config", "show"]);
+                w.knobs = saved;
+                out.sub_evals += 1;
+                out.fault("generated_file_replaced_between_two_reads_of_one_invocation", 1);
+                let shown = String::from_utf8_lossy(&o.stdout).contains("t000Z");
+                out.trace.push(format!("generated file tampered, original restored at its open #{}: config show -> {:?}{}", k, o.code, if shown { " showing the tampered name" } else { "" }));
+                if o.code == Some(0) && shown {
+                    out.violate("reject_tampered", "accepted:generated:replaced_between_reads", format!("generated file tampered (t0000 -> t000Z) and restored when it was opened for the {}. time: config show exits 0 and lists t000Z - the bytes it used are not the bytes it verified", k));
+                }
+                let _ = std::fs::write(&paths[1], &orig[1]);
+                let _ = std::fs::remove_file(&alt);
+                if !out.violations.is_empty() {
+                    return out;
+                }
+            }
+        }
+    }
     // ---- fault phase
     let mut rng = Rng::new(sc.tamper_seed);
     let tampers: Vec<Tamper> = if !sc.only.is_empty() {
@@ -544,7 +578,7 @@ impl Property for C17 {
         outv
     }
     fn rule(&self) -> String {
-        "a source file of 1 B - 9 KB and a valid configuration of 1-320 targets (generated file ~300 B - 70 KiB, biased to cross 4096 / 8192 / 16384 / 65536 bytes); config generate; positive phase: all 11 config-reading APIs (config show, analyze, target show -g, target render, checkpoint update/show/delete, run, result show, log show, out delete) succeed on the untouched files and after rewriting them with identical bytes; fault phase, per scenario 10 (thorough 40) seeded tampers: file in {source, generated, lockfile} x {substitute one byte by a different byte (whitespace, digit, quote, NUL, random), drop the last 1-3 bytes, truncate, append} x offset from {first/last 64 bytes, +-2 around every multiple of 4096, uniform}; after each tamper every API must exit non-zero with an error document, start no process, leave the output directory unchanged, and log tail must refuse to listen. Lockfile edits that keep the checksum string are unconstrained. Non-trivial = at least one byte-changing tamper; distinct = (targets, padding, generated size, tampers)".into()
+        "a source file of 1 B - 9 KB and a valid configuration of 1-320 targets (generated file ~300 B - 70 KiB, biased to cross 4096 / 8192 / 16384 / 65536 bytes); config generate; positive phase: all 11 config-reading APIs (config show, analyze, target show -g, target render, checkpoint update/show/delete, run, result show, log show, out delete) succeed on the untouched files and after rewriting them with identical bytes; fault phase, per scenario 10 (thorough 40) seeded tampers: file in {source, generated, lockfile} x {substitute one byte by a different byte (whitespace, digit, quote, NUL, random), drop the last 1-3 bytes, truncate, append} x offset from {first/last 64 bytes, +-2 around every multiple of 4096, uniform}; one scenario in three also has the generated file start out tampered and replaced by the original when it is opened for the 1st/2nd/3rd time within one `config show` (shim seam): exit 0 together with the tampered content is a violation; after each tamper every API must exit non-zero with an error document, start no process, leave the output directory unchanged, and log tail must refuse to listen. Lockfile edits that keep the checksum string are unconstrained. Non-trivial = at least one byte-changing tamper; distinct = (targets, padding, generated size, tampers)".into()
     }
     fn components(&self) -> Value {
         json!({
